@@ -41,6 +41,7 @@ import (
 	"github.com/pkg/errors"
 	config_util "github.com/prometheus/common/config"
 	"gopkg.in/yaml.v2"
+	yamlv3 "gopkg.in/yaml.v3"
 )
 
 var (
@@ -193,28 +194,33 @@ func (i *Injector) marshal(cfg *config.Config) ([]byte, error) {
 	// changed, so only "scrape_configs" is taken from the marshalled config; all other sections
 	// (global, rule_files, alerting, remote_write, remote_read, ...) are kept as they are written
 	// in the raw content, secrets included
-	genTree, rawTree := yaml.MapSlice{}, yaml.MapSlice{}
-	if err := yaml.Unmarshal(gen, &genTree); err != nil {
+	// (as yaml nodes, not as values: read without a schema, "0123456", "1e3" or "on" would
+	// come back as 42798, 1000 and true)
+	var genDoc, rawDoc yamlv3.Node
+	if err := yamlv3.Unmarshal(gen, &genDoc); err != nil {
 		return nil, errors.Wrapf(err, "unmarshal generated config")
 	}
-	if err := yaml.Unmarshal(i.curCfg.RawContent, &rawTree); err != nil {
+	if err := yamlv3.Unmarshal(i.curCfg.RawContent, &rawDoc); err != nil {
 		return nil, errors.Wrapf(err, "unmarshal raw config")
 	}
 
 	const scrapeConfigs = "scrape_configs"
-	out := yaml.MapSlice{}
-	for _, item := range rawTree {
-		if item.Key != scrapeConfigs {
-			out = append(out, item)
+	out := &yamlv3.Node{Kind: yamlv3.MappingNode, Tag: "!!map"}
+	appendSections := func(doc *yamlv3.Node, scrape bool) {
+		if doc.Kind != yamlv3.DocumentNode || len(doc.Content) == 0 || doc.Content[0].Kind != yamlv3.MappingNode {
+			return
+		}
+		m := doc.Content[0]
+		for k := 0; k+1 < len(m.Content); k += 2 {
+			if (m.Content[k].Value == scrapeConfigs) == scrape {
+				out.Content = append(out.Content, m.Content[k], m.Content[k+1])
+			}
 		}
 	}
-	for _, item := range genTree {
-		if item.Key == scrapeConfigs {
-			out = append(out, item)
-		}
-	}
+	appendSections(&rawDoc, false)
+	appendSections(&genDoc, true)
 
-	data, err := yaml.Marshal(out)
+	data, err := yamlv3.Marshal(out)
 	if err != nil {
 		return nil, errors.Wrapf(err, "marshal config failed")
 	}
